@@ -1024,3 +1024,106 @@ func c01R38(ic *IC, r *Report) {
 		r.Errorf("R01.38: only %d returns of a type found in (*scope).rangeChanType", n)
 	}
 }
+
+func init() {
+	ruleText["R01.39"] = "a select clause declares the variable that receives the value only for a short declaration: in the commClause case of cfg's pre-order pass every store into the symbol table of the scope (sc.sym[...] = ...) is under a condition that tests the kind of the clause's statement against defineStmt - `case x = <-c` assigns the variable x of the enclosing scope, it does not declare a second x that vanishes with the clause"
+	ruleText["R01.40"] = "every form of comm clause is given a direction: in _select the switch over the forms of a clause (body or not, receive, send) that assigns the direction of the select case has a default branch that assigns it too - a form the author did not list (a receive with assignment and an empty body) is otherwise handed to reflect.Select with direction 0, which panics"
+}
+
+// c01R39and40: D127, D128 (round-8 report on C08, P3/P4 and what probing them showed).
+func c01R39and40(ic *IC, r *Report) {
+	info := ic.Info
+	cfgFn := ic.fn(r, "Interpreter.cfg")
+	symFld := ic.field("scope", "sym")
+	if cfgFn != nil && symFld != nil {
+		n := 0
+		ast.Inspect(cfgFn.Decl.Body, func(q ast.Node) bool {
+			cc, ok := q.(*ast.CaseClause)
+			if !ok {
+				return true
+			}
+			ls := kindLabels(ic, cc)
+			if len(ls) != 1 || ls[0] != "commClause" {
+				return true
+			}
+			for _, st := range cc.Body {
+				ast.Inspect(st, func(z ast.Node) bool {
+					as, ok := z.(*ast.AssignStmt)
+					if !ok {
+						return true
+					}
+					for _, l := range as.Lhs {
+						ix, ok := unparen(l).(*ast.IndexExpr)
+						if !ok || selField(info, ix.X) != symFld {
+							continue
+						}
+						n++
+						guarded := false
+						for _, p := range enclosingPath(cc, as) {
+							if ifs, ok := p.(*ast.IfStmt); ok {
+								ast.Inspect(ifs.Cond, func(y ast.Node) bool {
+									if id, ok := y.(*ast.Ident); ok {
+										if c, ok := info.Uses[id].(*types.Const); ok && c.Name() == "defineStmt" {
+											guarded = true
+										}
+									}
+									return true
+								})
+							}
+						}
+						r.Check(guarded, "R01.39", fmt.Sprintf("cfg/case:commClause/declaration#%d/only-for-a-short-declaration", n), ic.pos(as.Pos()), "the symbol is declared under a test of the statement kind against defineStmt",
+							"the commClause case of cfg declares a new variable for the destination of the clause's statement whatever its form: `var x int; select { case x = <-c: }; println(x)` prints 0 (compiled Go prints the value received) - inside the clause a second x shadows the one of the enclosing scope and vanishes with it")
+					}
+					return true
+				})
+			}
+			return true
+		})
+		if n == 0 {
+			r.Errorf("R01.39: no declaration of a symbol found in the commClause case of cfg (pre-order)")
+		}
+	}
+	sel := ic.fn(r, "_select")
+	if sel == nil {
+		return
+	}
+	var sw *ast.SwitchStmt
+	dirAssign := func(nd ast.Node) bool {
+		found := false
+		ast.Inspect(nd, func(z ast.Node) bool {
+			if as, ok := z.(*ast.AssignStmt); ok {
+				for _, l := range as.Lhs {
+					if se, ok := unparen(l).(*ast.SelectorExpr); ok && se.Sel.Name == "Dir" {
+						if v := selField(info, se); v != nil && v.Pkg() != nil && v.Pkg().Path() == "reflect" {
+							found = true
+						}
+					}
+				}
+			}
+			return true
+		})
+		return found
+	}
+	ast.Inspect(sel.Decl.Body, func(q ast.Node) bool {
+		if _, ok := q.(*ast.FuncLit); ok {
+			return false
+		}
+		s, ok := q.(*ast.SwitchStmt)
+		if ok && sw == nil && dirAssign(s.Body) {
+			sw = s
+		}
+		return true
+	})
+	if sw == nil {
+		r.Errorf("R01.40: the switch of _select assigning the direction of the select cases was not found")
+		return
+	}
+	def := false
+	for _, st := range sw.Body.List {
+		if c := st.(*ast.CaseClause); c.List == nil && dirAssign(c) {
+			def = true
+		}
+	}
+	r.Check(def, "R01.40", "_select/clause-forms/every-form-has-a-direction", ic.pos(sw.Pos()), "the switch over the clause forms has a default branch assigning the direction",
+		"the switch of _select over the forms of a comm clause lists some forms only and has no default branch assigning the direction: a clause of another form - `select { case x = <-c: }`, a receive with assignment and an empty body - keeps direction 0 and reflect.Select panics (invalid Dir)")
+}
